@@ -1,6 +1,7 @@
 """C09: verifier verdict == well-formedness (Verifier.tla / VerifierM.tla), both ways."""
 import itertools
 import json
+import time
 import os
 import random
 
@@ -82,7 +83,13 @@ def run_c09(tier, seed):
     parse_budget = 2500 if tier == "quick" else 20000
     parse_pick = set(rng.sample(range(len(trees)), min(parse_budget, len(trees))))
     prev_obj = None
+    t_start = time.time()
     for ti, o in enumerate(trees):
+        if len(chk.violations) > 2000 and (time.time() - t_start) > 600:
+            # thousands of wrong verdicts already and the run is crawling (a verifier that gets slower with every call):
+            # what has been seen decides the property; stop here
+            chk.notes["stopped_early_after_trees"] = ti
+            break
         tree = o["tree"]
         variants = [("objects", build.mk_fcp(tree))]
         # all permutations of the struct and impl lists (explicit and default impls together)
@@ -128,6 +135,8 @@ def run_c09(tier, seed):
     chk.notes["trees_also_parsed_from_text"] = nparse
     # (T) random larger trees, recorded verify() calls judged by TLC
     n = 1500 if tier == "quick" else 30000
+    if "stopped_early_after_trees" in chk.notes:
+        n = 50
     events, meta = [], {}
     for i in range(n):
         tree = rand_tree(rng)
